@@ -108,7 +108,7 @@ _ABORT_TAIL = ['self.transfer.abort_reason = reason',
                'return True']
 
 
-def _abort_table(st_tree: ast.AST, md_tree: ast.AST, classes: list[tuple[str, str]]) -> list[tuple[str, bool, bool]]:
+def _abort_table(st_tree: ast.AST, md_tree: ast.AST, classes: list[tuple[str, str]], repo=None) -> list[tuple[str, bool, bool]]:
     """(state name, stops the transfer, removes the local file) for every state class that defines `abort`."""
     ts = _cls(st_tree, 'TransferState')
     if _norm(_method(ts, 'abort').body) != ['return False']:
@@ -150,6 +150,39 @@ def _abort_table(st_tree: ast.AST, md_tree: ast.AST, classes: list[tuple[str, st
     sct = _norm(_method(_cls(md_tree, 'Transfer'), 'set_complete_time').body)
     if len(sct) != 1 or not sct[0].startswith('if self.start_time is not None:\n    self.complete_time = time.time()'):
         raise TranslateError('Transfer.set_complete_time has an unknown shape: ' + repr(sct)[:200])
+    try:
+        return _abort_rows_by_shape(st_tree, classes)
+    except TranslateError as shape_error:
+        # the abort() methods are written differently (shared helper, …): read the same three facts off the transfer table,
+        # which is cross-checked against / read from the running code (translate/transfer_table.py)
+        try:
+            return _abort_rows_from_table(repo)
+        except Exception as e:  # noqa: BLE001
+            raise TranslateError(f'{shape_error}; and reading the abort rows off the transfer table failed: {e!r}')
+
+
+def _abort_rows_from_table(repo) -> list[tuple[str, bool, bool]]:
+    from translate import transfer_table
+    info = transfer_table.extract_checked(repo)
+    rows = []
+    for (sname, meth), per in info['table'].items():
+        if meth != 'abort':
+            continue
+        for d, (tgt, effs) in per.items():
+            if tgt != 'aborted' or 'cancelTasks' not in effs or effs[-1] != 'setAbortReason':
+                raise TranslateError(f'{sname}.abort ({d}): target {tgt}, effects {effs}')
+        up, down = per['upload'][1], per['download'][1]
+        stops = 'setCompleteTime' in down
+        if stops != ('setCompleteTime' in up):
+            raise TranslateError(f'{sname}.abort: stopping depends on the direction')
+        rows.append((sname, stops, 'removeLocalFile' in down))
+    if not rows:
+        raise TranslateError('no state class defines abort()')
+    order = {n: i for i, n in enumerate(transfer_table.ST)}
+    return sorted(rows, key=lambda r: order.get(r[0], 99))
+
+
+def _abort_rows_by_shape(st_tree: ast.AST, classes: list[tuple[str, str]]) -> list[tuple[str, bool, bool]]:
     table = []
     for cname, val in classes:
         c = _cls(st_tree, cname)
@@ -265,7 +298,7 @@ def extract(repo: Path) -> dict:
             if s not in names:
                 raise TranslateError(f'Transfer.{nm}: {s} is not a State member')
 
-    out['abort_table'] = _abort_table(st_tree, md_tree, classes)
+    out['abort_table'] = _abort_table(st_tree, md_tree, classes, repo)
 
     body = _body(_method(tr, 'is_transfered'))
     if len(body) != 1 or not isinstance(body[0], ast.Return) or \
